@@ -109,7 +109,14 @@
 //	            o_strconv_FormatFloat_g / _f : Z -> go_string, leading parameters of every translated function
 //	            that uses them (directly or through a callee), applied to the bit pattern go_math_Float64bits f;
 //	            any other format / precision / bit size: error. Conversions between string types (json.Number),
-//	            string([]byte), []byte(string): the same bytes.
+//	            string([]byte), []byte(string): the same bytes. d.String() on a time.Duration: ORACLE
+//	            o_time_Duration_String : Z -> go_string (nanoseconds -> text), like the float formattings.
+//	            INTERFACE generated.Message: a parameter m of that type is read as the PAIR of the values its
+//	            methods return, m_Frame (can.Frame) and m_Descriptor (descriptor.Message); m.Frame() / m.Descriptor()
+//	            are the components (the methods are taken to be pure and stable across calls; THAT the generated
+//	            Frame() / Descriptor() methods return what the interpreter's model says is what C03 / C10's wiring
+//	            tie establishes), m can only be passed on to another translated function; any other method: error.
+//	            make([]byte, n, cap) = make([]byte, n) (capacity not observable on contents; its panics not modelled).
 //
 // Every integer operation is emitted at the static type go/types reports for that expression,
 // against the operators of coq/theories/Translate/GoSem.v, every floating-point operation against
@@ -244,6 +251,11 @@ var whitelist = []struct{ pkg, recv, name string }{
 	{"pkg/cantext", "", "AppendID"},
 	{"pkg/cantext", "", "appendAttributeString"},
 	{"pkg/cantext", "", "AppendSender"},
+	{"pkg/cantext", "", "Marshal"},
+	{"pkg/cantext", "", "MarshalCompact"},
+	{"pkg/cantext", "", "MessageString"},
+	{"pkg/cantext", "", "AppendCycleTime"},
+	{"pkg/cantext", "", "AppendDelayTime"},
 }
 
 // ---------------------------------------------------------------------------- errors
@@ -299,6 +311,7 @@ const (
 	kString
 	kBasicTy // go/types.Type values obtained as types.Typ[kind]: the kind
 	kList    // []*S / []S with S a named struct of the subset: the list of the element VALUES
+	kIface   // the interface generated.Message: the PAIR (value of Frame(), value of Descriptor()); st / st2
 )
 
 type gtype struct {
@@ -307,6 +320,7 @@ type gtype struct {
 	bits   int
 	n      int64
 	st     *structInfo
+	st2    *structInfo // kIface: the struct behind Descriptor() (st: the one Frame() returns)
 	ptr    bool
 	opt    bool // a *S result or local: option S (nil = None); parameters/receivers of type *S are the value
 }
@@ -387,6 +401,27 @@ func (t *translator) classify(pos token.Pos, typ types.Type) gtype {
 		if n, ok := typ.(*types.Named); ok && n.Obj().Pkg() != nil && n.Obj().Pkg().Path() == "go/types" && n.Obj().Name() == "Type" {
 			return gtype{k: kBasicTy}
 		}
+		if isGeneratedMessage(typ) {
+			// generated.Message: read as the pair of the values its methods Frame() and Descriptor() return
+			g := gtype{k: kIface}
+			for i := 0; i < u.NumMethods(); i++ {
+				m := u.Method(i)
+				sig := m.Type().(*types.Signature)
+				if sig.Params().Len() != 0 || sig.Results().Len() != 1 {
+					continue
+				}
+				switch m.Name() {
+				case "Frame":
+					g.st = t.classify(pos, sig.Results().At(0).Type()).st
+				case "Descriptor":
+					g.st2 = t.classify(pos, sig.Results().At(0).Type()).st
+				}
+			}
+			if g.st == nil || g.st2 == nil {
+				t.failf(pos, "generated.Message without Frame() / Descriptor() of struct type")
+			}
+			return g
+		}
 	case *types.Struct:
 		if n, ok := typ.(*types.Named); ok {
 			return gtype{k: kStruct, st: t.structOf(n, u)}
@@ -413,6 +448,32 @@ func (t *translator) claim(name, owner string) {
 		t.failf(token.NoPos, "Coq name %s needed for %s is already used for %s", name, owner, o)
 	}
 	t.names[name] = owner
+}
+
+func isGeneratedMessage(typ types.Type) bool {
+	n, ok := typ.(*types.Named)
+	if !ok || n.Obj().Pkg() == nil {
+		return false
+	}
+	_, isIface := n.Underlying().(*types.Interface)
+	return isIface && n.Obj().Pkg().Path() == modPath+"/pkg/generated" && n.Obj().Name() == "Message"
+}
+
+// ifaceCall: x.Frame() / x.Descriptor() on a variable x of type generated.Message: the component of the pair.
+func ifaceCall(info *types.Info, call *ast.CallExpr) (*ast.Ident, string, bool) {
+	sel, ok := ast.Unparen(call.Fun).(*ast.SelectorExpr)
+	if !ok || len(call.Args) != 0 {
+		return nil, "", false
+	}
+	s, ok := info.Selections[sel]
+	if !ok || s.Kind() != types.MethodVal || !isGeneratedMessage(s.Recv()) {
+		return nil, "", false
+	}
+	id, ok := ast.Unparen(sel.X).(*ast.Ident)
+	if !ok || (sel.Sel.Name != "Frame" && sel.Sel.Name != "Descriptor") {
+		return nil, "", false
+	}
+	return id, sel.Sel.Name, true
 }
 
 func (g gtype) coq() string {
@@ -458,6 +519,8 @@ func (g gtype) same(h gtype) bool {
 		return g.n == h.n
 	case kStruct, kList:
 		return g.st == h.st
+	case kIface:
+		return g.st == h.st && g.st2 == h.st2
 	}
 	return true
 }
@@ -571,7 +634,10 @@ func wlKey(pkg, recv, name string) string {
 	return path + "." + name
 }
 
-func wlCoq(recv, name string) string {
+func wlCoq(pkg, recv, name string) string {
+	if recv == "" && name == "Marshal" && (pkg == "pkg/cantext" || pkg == "pkg/canjson") {
+		return pkg[len("pkg/"):] + "_Marshal" // two functions of that name
+	}
 	if recv != "" {
 		return recv + "_" + name
 	}
@@ -813,6 +879,9 @@ func (t *translator) analyse(key string, from token.Pos) *fn {
 				default:
 					t.failf(x.Pos(), "call of the builtin %s", b)
 				}
+				return true
+			}
+			if _, _, ok := ifaceCall(info, x); ok {
 				return true
 			}
 			callee := calleeOf(info, x)
@@ -1176,6 +1245,9 @@ func libKey(f *types.Func) (string, bool) {
 		if n, ok := r.Type().(*types.Named); ok && f.Pkg().Path() == "encoding/binary" && n.Obj().Name() == "littleEndian" {
 			return "encoding/binary.LittleEndian." + f.Name(), true
 		}
+		if n, ok := r.Type().(*types.Named); ok && f.Pkg().Path() == "time" && n.Obj().Name() == "Duration" {
+			return "time.Duration." + f.Name(), true // method of the integer type time.Duration
+		}
 		return "", false
 	}
 	return f.Pkg().Path() + "." + f.Name(), true
@@ -1191,6 +1263,8 @@ var oracles = map[string]string{
 	"unicode.IsUpper":  "o_unicode_IsUpper",
 	"unicode.IsLower":  "o_unicode_IsLower",
 	"unicode.IsLetter": "o_unicode_IsLetter",
+	// time.Duration.String(): no model (the hand model's GoDuration segment): Z (nanoseconds) -> text
+	"time.Duration.String": "o_time_Duration_String",
 }
 
 func oracleOf(f *types.Func) (string, bool) {
@@ -1207,7 +1281,7 @@ func oracleOf(f *types.Func) (string, bool) {
 // from the float64's BIT PATTERN (go_math_Float64bits) to the text - exactly how the hand model
 // Gen/Render.v carries them (segments FloatG bits / FloatF bits, rendered by a Section variable).
 func oracleType(o string) string {
-	if strings.HasPrefix(o, "o_strconv_") {
+	if strings.HasPrefix(o, "o_strconv_") || strings.HasPrefix(o, "o_time_") {
 		return "Z -> go_string"
 	}
 	return "Z -> bool"
@@ -1790,6 +1864,13 @@ func (c *fctx) expr(e ast.Expr) string {
 		if ftv, ok := c.info.Types[x.Fun]; ok && ftv.IsType() {
 			return c.conversion(x)
 		}
+		if id, meth, ok := ifaceCall(c.info, x); ok {
+			n, ok := c.vars[c.info.Uses[id]]
+			if !ok {
+				t.failf(x.Pos(), "%s.%s() on something that is not a parameter of type generated.Message", id.Name, meth)
+			}
+			return n + "_" + meth
+		}
 		switch builtinOf(c.info, x) {
 		case "len":
 			if len(x.Args) != 1 {
@@ -1810,8 +1891,16 @@ func (c *fctx) expr(e ast.Expr) string {
 			}
 			t.failf(x.Pos(), "len of %s", c.info.TypeOf(x.Args[0]))
 		case "make":
-			if g := c.typeOf(x); g.k != kBytes || len(x.Args) != 2 {
+			if g := c.typeOf(x); g.k != kBytes || (len(x.Args) != 2 && len(x.Args) != 3) {
 				t.failf(x.Pos(), "make of something that is not []byte with a length")
+			}
+			if len(x.Args) == 3 {
+				// make([]byte, n, cap): the capacity is not observable on contents (a negative or too small
+				// cap panics: not modelled); its expression must still be in the subset
+				if cg := c.typeOf(x.Args[2]); cg.k != kInt {
+					t.failf(x.Args[2].Pos(), "make with a capacity of type %s", c.info.TypeOf(x.Args[2]))
+				}
+				_ = c.expr(x.Args[2])
 			}
 			ntv := c.info.Types[x.Args[1]]
 			if ntv.Value == nil {
@@ -1872,6 +1961,16 @@ func (c *fctx) expr(e ast.Expr) string {
 				t.failf(x.Pos(), "%s.%s (value, error) used in an expression: only `v, err := ...`", callee.Pkg().Name(), callee.Name())
 			}
 			return c.textCall(x, callee, tl)
+		}
+		if o, ok := oracleOf(callee); ok && o == "o_time_Duration_String" {
+			sel, isSel := ast.Unparen(x.Fun).(*ast.SelectorExpr)
+			if !isSel || len(x.Args) != 0 {
+				t.failf(x.Pos(), "time.Duration.String not called as d.String()")
+			}
+			if a := c.typeOf(sel.X); a.k != kInt || !a.signed || a.bits != 64 || a.ptr {
+				t.failf(x.Pos(), "receiver of time.Duration.String is not a Duration value")
+			}
+			return fmt.Sprintf("(%s %s)", o, c.expr(sel.X))
 		}
 		if o, ok := oracleOf(callee); ok {
 			if len(x.Args) != 1 {
@@ -1959,6 +2058,18 @@ func (c *fctx) call(x *ast.CallExpr, g *fn) string {
 		}
 		if want.k == kStruct {
 			parts = append(parts, c.structVal(a))
+			continue
+		}
+		if want.k == kIface {
+			id, ok := a.(*ast.Ident)
+			if !ok {
+				c.t.failf(a.Pos(), "generated.Message argument that is not a variable")
+			}
+			n, ok := c.vars[c.info.Uses[id]]
+			if !ok {
+				c.t.failf(a.Pos(), "generated.Message argument that is not a parameter")
+			}
+			parts = append(parts, n+"_Frame", n+"_Descriptor")
 			continue
 		}
 		parts = append(parts, c.expr(a))
@@ -3101,6 +3212,11 @@ func (t *translator) translate(f *fn) {
 	}
 	for _, p := range f.params {
 		p.name = c.declare(p.v)
+		if p.g.k == kIface {
+			c.taken[p.name+"_Frame"], c.taken[p.name+"_Descriptor"] = true, true
+			ps = append(ps, fmt.Sprintf("(%s_Frame : %s) (%s_Descriptor : %s)", p.name, p.g.st.coq, p.name, p.g.st2.coq))
+			continue
+		}
 		ps = append(ps, fmt.Sprintf("(%s : %s)", p.name, p.g.coq()))
 	}
 	var rts []string
@@ -3161,11 +3277,11 @@ func main() {
 		}
 	}
 	for _, w := range whitelist {
-		wlByKey[wlKey(w.pkg, w.recv, w.name)] = wlCoq(w.recv, w.name)
+		wlByKey[wlKey(w.pkg, w.recv, w.name)] = wlCoq(w.pkg, w.recv, w.name)
 	}
 	if list {
 		for _, w := range whitelist {
-			fmt.Printf("WHITELIST %s %s\n", wlCoq(w.recv, w.name), wlKey(w.pkg, w.recv, w.name))
+			fmt.Printf("WHITELIST %s %s\n", wlCoq(w.pkg, w.recv, w.name), wlKey(w.pkg, w.recv, w.name))
 		}
 		return
 	}
@@ -3202,7 +3318,7 @@ func run(root, out string, only []string) (status int) {
 	}
 	pkgSet := map[string]bool{}
 	for _, w := range whitelist {
-		coq := wlCoq(w.recv, w.name)
+		coq := wlCoq(w.pkg, w.recv, w.name)
 		if len(only) > 0 && !want[coq] {
 			continue
 		}
